@@ -409,6 +409,13 @@ func genMetricDB(r *rand.Rand, id int, ndb int) Case {
 		}
 	}
 	fillDBs(r, &c, ndb)
+	// overlapping requests for one expression (overlap.go; seeded C08-h): a third of the whole-range windows is asked for while a
+	// second request with the same text and a window some days later (sometimes earlier) is answered in the middle of its Process call
+	if d := xRangeNs(q); d > 0 && c.Ctx.FromNs%d == 0 && c.Ctx.ToNs%d == 0 && c.Ctx.ToNs-d >= c.Ctx.FromNs && r.Intn(3) == 0 {
+		k := int64([]int{1, 2, 2, 3, 7, -1, -2}[r.Intn(7)]) * 86400e9
+		c.Ctx.Overlap = &[2]int64{c.Ctx.FromNs + k, c.Ctx.ToNs - d + k}
+		c.Class = append(c.Class, "overlap")
+	}
 	return c
 }
 
